@@ -3,7 +3,7 @@
    (mismatch), and evaluates the property predicates of Spec.v on the
    implementation's own observations (violation). *)
 From VF Require Import Common.Verdict.
-From VF Require Export Nfs41.Spec.
+From VF Require Export Nfs41.Spec Nfs41.SpecLease.
 Local Open Scope string_scope.
 Open Scope list_scope.
 Open Scope N_scope.
@@ -147,10 +147,15 @@ Fixpoint mism_from (i : nat) (m : mstate) (steps : list hstep) : verdict :=
   end.
 
 Definition check_case (c : case) : verdict :=
-  vcombine (match p_case (cs_cfg c) (cs_steps c) with
-            | Some (i, k) => VViolation i k
-            | None => VOk
-            end)
+  vcombine (vcombine (match p_case (cs_cfg c) (cs_steps c) with
+                      | Some (i, k) => VViolation i k
+                      | None => VOk
+                      end)
+                     (* the independent lease monitor (SpecLease.v) *)
+                     (match lease_case (cs_cfg c) (cs_clock0 c) (cs_steps c) with
+                      | Some (i, k) => VViolation i k
+                      | None => VOk
+                      end))
            (mism_from 0 (mkM (init (cs_cfg c) (cs_clock0 c)) [] []) (cs_steps c)).
 
 (* Debugging aid: the model's observations at the first disagreeing step. *)
